@@ -140,7 +140,7 @@ impl Ctx {
         let mut new: Vec<&Violation> = vec![];
         let mut known_hit: BTreeMap<String, usize> = BTreeMap::new();
         for v in &viols {
-            if known.iter().any(|k| k.property == self.id && k.status == "open" && v.signature.contains(&k.signature)) {
+            if known.iter().any(|k| self.id.starts_with(&k.property) && k.status == "open" && v.signature.contains(&k.signature)) {
                 *known_hit.entry(v.signature.clone()).or_insert(0) += 1;
             } else {
                 new.push(v);
@@ -166,9 +166,18 @@ impl Ctx {
         for (k, v) in self.extra.into_inner().unwrap() {
             cov.insert(k, v);
         }
+        // the hfs build of this property ran first (./check runs it before the main build): fold its summary in
+        if !self.id.contains('.') {
+            if let Ok(t) = std::fs::read_to_string(format!("{VERIF_DIR}/evidence/{}.hfs.json", self.id)) {
+                if let Ok(v) = serde_json::from_str::<Value>(&t) {
+                    cov.insert("hfs_build".into(), json!({"evaluations": v["coverage"]["evaluations"], "distinct_nontrivial": v["coverage"]["distinct_nontrivial"], "rule": v["coverage"]["rule"], "violations": v["violations"], "wall_s": v["wall_s"], "counters": v["coverage"]["counters"]}));
+                }
+            }
+        }
         cov.insert("known_findings_hit".into(), json!(known_hit));
+        let base_id = self.id.split('.').next().unwrap_or(&self.id).to_string();
         let evidence = json!({
-            "property_id": self.id,
+            "property_id": base_id,
             "tier": if self.tier == Tier::Quick { "quick" } else { "thorough" },
             "seed": self.seed,
             "level": self.level,
@@ -214,7 +223,7 @@ impl Ctx {
             let _ = std::fs::write(&rp, text);
             println!("  signature: {}", v.signature);
             println!("  detail: {}", v.detail);
-            println!("VIOLATION property={} replay={}", self.id, rp);
+            println!("VIOLATION property={} replay={}", self.id.split('.').next().unwrap_or(&self.id), rp);
         }
         1
     }
